@@ -17,11 +17,11 @@ add("C03", "reference-model monitor (per-function mathematical reference) + perm
     COMMON_NOTE + "percentile/merge_agg are weakly documented, the oracle accepts every standard reading.",
     "DESIGN.md §5 C03")
 add("C04", "partition-by-typed-tuple checker over recorded deliveries (counting, event-time tumbling, event-time session, global windows)",
-    "Result rows of each delivered batch are compared with the typed-tuple partition of the batch's witness rows (collect(id)); separator-heavy key alphabet incl. NULL/''/'|'/unit separator and the ('a|b','c') vs ('a','b|c') pair.",
+    "Result rows of each delivered batch are compared with the typed-tuple partition of the batch's witness rows (collect(id)); separator-heavy key alphabet incl. NULL/''/'|'/unit separator, NULL-marker spellings and the ('a|b','c') vs ('a','b|c') pair; rows of one tuple less than a session timeout apart must share a result; SELECT DISTINCT over grouped rows must keep every tuple (c04distinct).",
     COMMON_NOTE + "One scalar type per key column, as the property's quantifier states.",
     "DESIGN.md §5 C04")
 add("C05", "reference filter/projection + three-way path equality (EmitSync / sync sink / channel) + order monitor under load" ,
-    "Generated direct queries are evaluated by the engine on three API paths and by a row-wise reference; per-id results must agree, must not depend on history, and a single producer's results must arrive in emission order at a sync sink and on the channel" + RACE + ".",
+    "Generated direct queries are evaluated by the engine on three API paths and by a row-wise reference; per-id results must agree, must not depend on history (including the Go types of earlier rows, c05types), and a single producer's results must arrive in emission order at a sync sink and on the channel" + RACE + ".",
     COMMON_NOTE + "Constructs whose SQL meaning the statement leaves open are checked for invariance only.",
     "DESIGN.md §5 C05")
 add("C06", "independent reference interpreter + layout/site/history invariance (fresh child processes) + built-in function sweep with hostile arguments",
@@ -29,7 +29,7 @@ add("C06", "independent reference interpreter + layout/site/history invariance (
     COMMON_NOTE + "SQL semantics are applied only where the statement pins them down; text/bool operands in arithmetic are checked for invariance and absence of panic only.",
     "DESIGN.md §5 C06")
 add("C07", "relational reference (aggregate → expression → DISTINCT → HAVING → ORDER BY → LIMIT) over recorded batches",
-    "Delivered batches of generated aggregate queries (CountingWindow per key, event-time tumbling windows with several groups) are compared with a relational reference; ordering is checked as a property of the output (sorted, length, excluded ≥ last included); hidden helper columns must not be visible.",
+    "Delivered batches of generated aggregate queries (CountingWindow per key, event-time tumbling windows with several groups) are compared with a relational reference; ordering is checked as a property of the output (sorted, length, excluded ≥ last included); hidden helper columns must not be visible; a second, slow asynchronous sink must read one of the delivered batches.",
     COMMON_NOTE + "Ties make the exact sequence non-deterministic; only order properties are checked.",
     "DESIGN.md §5 C07")
 add("C08", "offline sliding membership / eviction / order checker over recorded emit and sink logs",
@@ -37,12 +37,12 @@ add("C08", "offline sliding membership / eviction / order checker over recorded 
     COMMON_NOTE + "Single producer; a missing interval is declared only after a long engine-quiet wait.",
     "DESIGN.md §5 C08")
 add("C09", "offline per-key slicing checker over recorded deliveries (unique row ids, collect/first_value/last_value witnesses)",
-    "For every key the i-th delivery must aggregate exactly rows (i-1)N+1..iN of that key in arrival order; no remainder, no duplicate, separator-heavy keys, burst/paced feeding and tiny output buffers" + RACE + ".",
+    "For every key the i-th delivery must aggregate exactly rows (i-1)N+1..iN of that key in arrival order; no remainder, no duplicate, separator-heavy keys, burst/paced feeding and tiny output buffers, manual TriggerWindow calls, steadily fed keys under STATETTL, and concurrent producers with keys of their own into a growing input buffer behind a faulty sink (c09prod)" + RACE + ".",
     COMMON_NOTE + "Surplus deliveries arriving after the settle period are not seen.",
     "DESIGN.md §5 C09")
 add("C10", "offline session partition / gap / bounds / no-early checker + feed-speed metamorphic test",
     "Per key: every accepted row in exactly one session result, consecutive timestamps within the timeout, window_start/window_end equal the witness rows' min / max+timeout, no delivery before the watermark passed the end, identical outcome for in-order input at three feed speeds" + RACE + ".",
-    COMMON_NOTE + "Maximality of sessions is not demanded (the statement does not).",
+    COMMON_NOTE + "Maximality of sessions is not demanded (the statement does not) beyond this: two reported sessions of one key never interleave in time.",
     "DESIGN.md §5 C10")
 add("C11", "totality monitor (recover + watchdog, inputs journaled to disk) + generator-AST faithfulness + layout metamorphic test through the public API",
     "rsql.Parse is run on token soup, byte-mutated harvested SQL and raw bytes (no panic, termination, error xor config); generated statements are compared field by field with the returned config; re-rendered layouts must give equal configs and equal query results; keyword-like literals/identifiers must not become clauses.",
@@ -53,11 +53,11 @@ add("C12", "differential monitor: shortcut-shaped predicate vs its parenthesised
     COMMON_NOTE + "The general expr-lang path is the oracle, exactly as the property states; which path a text takes is read back by reflection.",
     "DESIGN.md §5 C12")
 add("C13", "regexp-derived reference over a bounded-exhaustive (pattern, text) space at four SQL sites",
-    "All patterns × all texts over {%,_,a,b,.} up to length 3 (quick) / 4 (thorough, exhaustive for that bounded space) plus sampled long patterns with regex metacharacters; IS [NOT] NULL over present/NULL/missing/nested/function operands; WHERE, HAVING, CASE and SELECT sites must agree with the reference.",
+    "All patterns × all texts over {%,_,a,b,.} up to length 3 (quick) / 4 (thorough, exhaustive for that bounded space) plus sampled long patterns with regex metacharacters; IS [NOT] NULL over present/NULL/missing/nested/function operands, two NULL tests on different columns and a NULL test joined with a LIKE by AND/OR; WHERE, HAVING, CASE and SELECT sites must agree with the reference.",
     COMMON_NOTE + "Exhaustive only for the stated bounded space.",
     "DESIGN.md §5 C13")
 add("C14", "reference state machines per partition + sync/async parity + solo-vs-interleaved and concurrent isolation",
-    "Outputs of lag/latest/had_changed/changed_col(s)/acc_* (OVER PARTITION BY/WHEN, wrappers) are compared row by row with reference state machines; EmitSync and Emit+sink sequences must be identical; a partition's outputs must equal those of a solo run and of a concurrent per-partition feed" + RACE + ".",
+    "Outputs of lag/latest/had_changed/changed_col(s)/acc_* (OVER PARTITION BY/WHEN, wrappers) are compared row by row with reference state machines; EmitSync and Emit+sink sequences must be identical; a partition's outputs must equal those of a solo run and of a concurrent per-partition feed; several analytic calls in one statement see the input row only and keep their own OVER clauses (c14multi)" + RACE + ".",
     COMMON_NOTE + "Semantics the documentation leaves open are checked for parity/isolation only (listed in c14_ref.go).",
     "DESIGN.md §5 C14")
 add("C15", "brute-force reference matcher (pattern-language enumeration) + isolation metamorphic test, incl. Stop-flush deliveries",
